@@ -108,6 +108,16 @@ func resolveAttack(c *Ctx) *attackAnchors {
 			a.Ticks = cell
 		}
 	}
+	if a.Ticks == nil && a.Worker.Parent() != nil {
+		// closure worker: the channel it receives from (`for range ticks`)
+		eachInstr(a.Worker, func(i ssa.Instruction) {
+			if u, ok := i.(*ssa.UnOp); ok && u.Op == token.ARROW {
+				if cell := valueOrCell(u.X); cell != nil && cell != a.Results {
+					a.Ticks = cell
+				}
+			}
+		})
+	}
 	if a.Ticks == nil {
 		bad("cannot identify the ticks channel")
 	}
@@ -457,8 +467,20 @@ func c02SendSites(c *Ctx, a *attackAnchors) {
 		g := sp.Go
 		key := fmt.Sprintf("worker-spawn:%s#%d", shortFn(sp.Fn), k)
 		var hasWG, hasTicks, hasResults bool
-		for _, arg := range g.Call.Args {
+		given := append([]ssa.Value(nil), g.Call.Args...)
+		if mc, isMC := g.Call.Value.(*ssa.MakeClosure); isMC {
+			given = append(given, mc.Bindings...) // a function-literal worker captures them instead
+		}
+		for _, arg := range given {
 			switch valueOrCell(arg) {
+			case a.WG:
+				hasWG = true
+			case a.Ticks:
+				hasTicks = true
+			case a.Results:
+				hasResults = true
+			}
+			switch rootCell(arg) {
 			case a.WG:
 				hasWG = true
 			case a.Ticks:
@@ -532,7 +554,7 @@ func c02SendSites(c *Ctx, a *attackAnchors) {
 	okD := ok && callName(&d.Call) == "(*sync.WaitGroup).Done"
 	if okD {
 		_, isParam := d.Call.Args[0].(*ssa.Parameter)
-		okD = isParam
+		okD = isParam || rootCell(d.Call.Args[0]) == a.WG
 	}
 	nDone := 0
 	eachInstr(a.Worker, func(i ssa.Instruction) {
@@ -572,7 +594,7 @@ func c02OneResultPerTick(c *Ctx, a *attackAnchors) {
 	recv := recvs[0].(*ssa.UnOp)
 	send := sends[0].(*ssa.Send)
 	hit := hits[0].(*ssa.Call)
-	if _, isParam := recv.X.(*ssa.Parameter); !isParam || !recv.CommaOk {
+	if _, isParam := recv.X.(*ssa.Parameter); !(isParam || valueOrCell(recv.X) == a.Ticks) || !recv.CommaOk {
 		c.Fail(key, rule, "the receive is not a comma-ok receive from the ticks parameter (range over channel)", c.at(recv))
 		return
 	}
@@ -580,7 +602,7 @@ func c02OneResultPerTick(c *Ctx, a *attackAnchors) {
 		c.Fail(key, rule, "the value sent is not the result of the hit call", c.at(send))
 		return
 	}
-	if _, isParam := send.Chan.(*ssa.Parameter); !isParam {
+	if _, isParam := send.Chan.(*ssa.Parameter); !isParam && valueOrCell(send.Chan) != a.Results {
 		c.Fail(key, rule, "the send is not on the results parameter", c.at(send))
 		return
 	}
